@@ -300,6 +300,9 @@ class Binding:
         if name == "idx":
             ixs = [s for t in p.terms() for s in self._term_idx(t)]
             return self.w.indices(sorted(ixs, key=talg.ix_key))
+        if name == "type_as_str":
+            c = self.w._sv_classes(p)
+            return "expr" if "Add" in c else "term" if "Mul" in c else "obj"
         raise AnalysisError(f"TM: Expr.{name} is not modelled")
 
     def _term_idx(self, p):
@@ -346,6 +349,8 @@ class Binding:
             return "minus" if c < 0 else "plus"
         if name == "expr":
             return self.w.expr(o.attrs["val"], a)
+        if name == "type_as_str":
+            return "term" if "Mul" in self.w._sv_classes(o.attrs["val"]) else "obj"
         raise AnalysisError(f"TM: Term.{name} is not modelled")
 
     def _single(self, o):
@@ -389,6 +394,12 @@ class Binding:
             return self.w.term(p, o.attrs["assume"])
         if name == "expr":
             return self.w.expr(p, o.attrs["assume"])
+        if name == "type_as_str":
+            if f is None:
+                return "prefactor"
+            if f[0] == "A":
+                return {"Amplitude": "amplitude", "SymmetricTensor": "symtensor", "AntiSymmetricTensor": "antisymtensor"}[f[1]]
+            return {"N": "nonsymtensor", "D": "delta", "X": "symbol"}.get(f[0]) or self._unmodelled(o, "type_as_str")
         raise AnalysisError(f"TM: Obj.{name} is not modelled")
 
     def _bks(self, v):
